@@ -71,6 +71,7 @@ def spec_sets(p, inp):
 def canon_iters(line):
     """scc_iters are per SCC in processing order; petgraph's and the model's (both valid) topological orders may differ,
     so the counts are compared as a multiset"""
+    if line is None: return "no-output"
     if line.startswith("iters"):
         return "iters " + " ".join(map(str, sorted(int(x) for x in line.split()[1:])))
     return line
